@@ -37,7 +37,7 @@ def _run(run, sessions, label, module, cfg, describe, race=False):
     ns, nev, rejected = validate_traces(run, module, cfg, tp)
     run.log("%s: %d sessions, %d events validated, %d rejected, %d driver faults" % (label, ns, nev, len(rejected), len(faults)))
     for sid, evs, idx in rejected:
-        sess = by_id.get(sid)
+        sess = by_id.get(sid) or by_id.get(sid // 100)     # a pool session is split into one sub-session per request
         if any(e.get("ev") == "timeout" for e in evs):
             raise Infra("session %s hit the driver watchdog (not a verdict): %s" % (sid, json.dumps(sess)[:400]))
         key, what = describe(sess, evs, idx)
@@ -113,6 +113,21 @@ def check_c18(run):
         sid += 1
         sessions.append({"id": sid, "kind": "conc", "target": "engine", "gated": rng.random() < 0.7,
                          "blocks": [bl], "nest": rng.choice(["plain", "if", "for"])})
+    # the same body evaluated by 2-3 pool requests at the same moment (the instances share the compiled rule); a child
+    # may fail in one request only, so that a failure and a success of the same statement overlap
+    for i in range(120 if quick else 2500):
+        blocks = []
+        n = 0
+        for b in range(rng.randint(1, 2)):
+            bl = []
+            for c in range(rng.randint(1, 4)):
+                n += 1
+                f = rng.random() < 0.35
+                bl.append({"id": "c%d" % n, "kind": rng.choice(kinds), "fails": f, "failsq": rng.choice([0, 1, 1, 2]) if f else 0,
+                           "val": 100 * (b + 1) + n})
+            blocks.append(bl)
+        sessions.append({"id": 9000000 + i, "kind": "conc", "target": "pool", "gated": rng.random() < 0.9, "nreq": rng.randint(2, 3),
+                         "blocks": blocks, "nest": rng.choice(["plain", "if", "for"])})
     ns = _run(run, sessions, "conc", "ConcTrace.tla", "ConcTrace.cfg", conc_describe)
     if getattr(run, "collect", None) is not None:
         return 0
